@@ -14,9 +14,9 @@ CHECK_DEADLOCK FALSE
 
 
 def plans(tier):
-    p = [("A6", "S4", 6, "ExpA")]
+    p = [("A6", "S5", 6, "ExpA")]
     if tier == "thorough":
-        p += [("B7", "S4", 7, "ExpB"), ("A7", "S5", 7, "ExpA")]
+        p += [("B7", "S4", 7, "ExpB"), ("A7", "S6", 6, "ExpA")]
     return p
 
 
